@@ -11,6 +11,9 @@ Values: None, bool, int, bytes, {name: value} (absent OPTIONAL / addition: no ke
 Lies: dict path -> dict.  A path is a tuple of member names / list indices / "alt".
    list:   {"announce": n}      the count determinant says n, the elements are the given ones
    cho:    {"index": i}         (UPER) raw root index / (OER, BER) raw context tag number; nothing follows
+           {"xindex": i}        (UPER, extensible) extension bit set, alternative number i, a one-octet open type
+   any:    (BER) {"tagbomb"} tag number beyond the tag type, {"lenbomb"} length of 9 octets, {"wrongtag"} [29], {"badeoc"} indefinite
+           length closed by 00 01, {"longer"} the length runs 3 octets past the contents
    int:    {"raw": v}           (UPER, OER) the field holds v
    seq:    {"dup": name}        (BER) member `name` is written twice;   {"unknown": 1} an unknown tag [30] is appended
            {"extbits": n}       (UPER/OER) the extension bitmap announces n additions (all flagged present), only the real ones follow
@@ -151,6 +154,16 @@ def ber(t, v, env, lie=None, path=(), tag=None):
         hd = ber_tagb(tag[0], tag[1], cons)
     else:
         hd = ber_tagb(0, 17 if (k == "list" and t["set"]) or (k == "seq" and t.get("set")) else 16, True) if cons else ber_tagb(0, UNIV[k], False)
+    if L.get("tagbomb"):
+        return bytes([hd[0] | 0x1f]) + b"\xff" * 9 + b"\x7f" + ber_len(len(c)) + c      # a tag number beyond ber_tlv_tag_t
+    if L.get("lenbomb"):
+        return hd + b"\x89" + b"\x01" * 9 + c                                           # a length beyond ber_tlv_len_t
+    if L.get("wrongtag"):
+        return ber_tagb(2, 29, cons) + ber_len(len(c)) + c                              # [29]: nobody expects it
+    if L.get("badeoc") and cons:
+        return hd + b"\x80" + c + b"\x00\x01\x00"                                      # indefinite length closed by 00 01
+    if L.get("longer"):
+        return hd + ber_len(len(c) + 3) + c                                             # the length runs past the contents
     return hd + ber_len(len(c)) + c
 
 
@@ -275,6 +288,12 @@ def uper_w(w, t, v, env, lie, path):
             if t["x"] is not None:
                 w.put(0, 1)
             w.put(L["index"], range_bits(nr))
+            return
+        if "xindex" in L:
+            w.put(1, 1)
+            u_nsnnwn(w, L["xindex"])
+            u_len(w, 1)
+            w.octets(b"\x00")
             return
         i, x = v
         if t["x"] is not None:
